@@ -46,9 +46,20 @@ func genPlan(t *rapid.T) Plan {
 	}
 	p.EncVsn = rapid.SampledFrom([]int{-1, -1, 0, 1}).Draw(t, "enc")
 	p.NoCompress = rapid.IntRange(0, 2).Draw(t, "nocomp") != 0
+	if p.EncVsn == 0 {
+		// encryption version 0 pads to whole blocks: packet sizes at which the padding is a full block (or a single
+		// byte) are where a budget that is off by one shows
+		if a := rapid.SampledFrom([]int{0, 43, 44, 45, 46}).Draw(t, "align"); a > 0 {
+			lo := 0
+			if p.LabelLen > 0 {
+				lo = 2 + p.LabelLen
+			}
+			p.UDPBuf -= (p.UDPBuf - lo - a) % 16
+		}
+	}
 	p.PeerPMax = uint8(rapid.SampledFrom([]int{2, 3, 4, 5, 5}).Draw(t, "pmax"))
 	p.Batches = rapid.SliceOfN(rapid.Custom(func(t *rapid.T) Batch {
-		return Batch{AtMs: rapid.IntRange(0, 3000).Draw(t, "at"), Kind: rapid.SampledFrom([]string{"tiny", "tiny", "mixed", "maximal", "members"}).Draw(t, "kind"),
+		return Batch{AtMs: rapid.IntRange(0, 3000).Draw(t, "at"), Kind: rapid.SampledFrom([]string{"tiny", "tiny", "mixed", "maximal", "members", "exact", "exact"}).Draw(t, "kind"),
 			Count: rapid.SampledFrom([]int{1, 3, 40, 253, 254, 255, 256, 260, 400, 509, 510, 511, 700}).Draw(t, "count"), Trigger: rapid.SampledFrom([]string{"gossip", "ping", "ping", "probe"}).Draw(t, "trigger")}
 	}), 1, 5).Draw(t, "batches")
 	sort.SliceStable(p.Batches, func(i, j int) bool { return p.Batches[i].AtMs < p.Batches[j].AtMs })
@@ -127,6 +138,11 @@ func run(pl Plan) (res vfx.Result) {
 				p.Rec.QueueUser(mk(n))
 			}
 			handedTotal += b.Count
+		case "exact":
+			// the delegate uses whatever limit it is offered to the last byte, a few times in a row
+			n := b.Count%5 + 1
+			p.Rec.FillExact(n)
+			handedTotal += n
 		case "maximal":
 			cnt := b.Count
 			if cnt > 3 {
